@@ -20,6 +20,11 @@ none :: () -> ?i32 { nil }
 some :: () -> ?i32 { 5 }
 """
 
+PRELUDE_NIL = """putchar :: (c: i32) -> i32 extern;
+none :: () -> ?void { return nil; }
+some :: () -> ?void { }
+"""
+
 PRELUDE_ERRU = """putchar :: (c: i32) -> i32 extern;
 Err :: enum { Bad, Worse: u8 };
 none :: () -> Err!i32 { e : Err = Err.Worse.(3); return e; }
@@ -113,11 +118,57 @@ def cases(draw):
     g = Gen(draw)
     body = g.block(1, {"loops": [], "labels": []})
     # the function returns an optional (`.try` propagates nil) or an error union (`.try` propagates the error)
-    return {"body": body, "ret": "erru" if draw(st.integers(0, 2)) == 0 else "opt"}
+    return {"body": body, "ret": draw(st.sampled_from(["opt", "opt", "opt", "erru", "erru", "nil"]))}
 
 
 def strategy(profile):
     return cases()
+
+
+def sweep_cases():
+    """small skeletons, enumerated: a loop (or plain / labeled block) whose body has 0-2 defers, a nested block (or two) with 1-2
+    defers, and one jump of every kind inside the innermost block, unconditional or on the flag; every result type"""
+    out = []
+    chars = iter("abcdefghijklmnopqrstuvwxyzABCDEFGHIJKLMNOPQRSTUVWXYZ0123456789" * 4)
+
+    def defers(n):
+        return [{"k": "defer", "c": next(chars)} for _ in range(n)]
+    for ret in ("opt", "erru", "nil"):
+        for outer in ("while", "loop", "lblock", "none"):
+            for n_outer in (0, 2):
+                for depth in (1, 2):
+                    for n_inner in (1, 2):
+                        for jump in ("continue", "break", "return", "try-nil", "breakblock", "continue-labeled"):
+                            if jump in ("continue", "break", "continue-labeled") and outer not in ("while", "loop"):
+                                continue
+                            if jump == "breakblock" and outer != "lblock":
+                                continue
+                            for guard in ("uncond", "flag"):
+                                chars = iter("abcdefghijklmnopqrstuvwxyzABCDEFGHIJKLMNOPQRSTUVWXYZ0123456789" * 4)
+                                lab = "l1" if jump == "continue-labeled" else None
+                                if jump in ("continue", "continue-labeled"):
+                                    j = {"k": "continue", "label": lab}
+                                elif jump == "break":
+                                    j = {"k": "break", "label": None, "loop": True}
+                                elif jump == "return":
+                                    j = {"k": "return", "v": 7}
+                                elif jump == "try-nil":
+                                    j = {"k": "try", "nil": True}
+                                else:
+                                    j = {"k": "break", "label": "b1", "loop": False}
+                                js = [j] if guard == "uncond" else [{"k": "if", "cond": ("flag", True), "body": [j]}]
+                                inner = defers(n_inner) + [{"k": "print", "c": next(chars)}] + js + [{"k": "print", "c": next(chars)}]
+                                for _ in range(depth - 1):
+                                    inner = defers(1) + [{"k": "block", "label": None, "body": inner}, {"k": "print", "c": next(chars)}]
+                                body = defers(n_outer) + [{"k": "block", "label": None, "body": inner}, {"k": "print", "c": next(chars)}]
+                                if outer in ("while", "loop"):
+                                    top = [{"k": outer, "label": lab, "var": "i1", "n": 2, "body": body}]
+                                elif outer == "lblock":
+                                    top = [{"k": "block", "label": "b1", "body": body}]
+                                else:
+                                    top = body
+                                out.append({"body": defers(1) + top + [{"k": "print", "c": next(chars)}], "ret": ret})
+    return out
 
 
 # ------------------------------------------------------------------------------------------------
@@ -127,7 +178,7 @@ def pc(c):
     return f"putchar({ord(c)});"
 
 
-def src_stmts(stmts, ind):
+def src_stmts(stmts, ind, ret_nil=False):
     pad = "    " * ind
     out = ""
     for s in stmts:
@@ -138,21 +189,24 @@ def src_stmts(stmts, ind):
             out += f"{pad}defer {pc(s['c'])}\n"
         elif k == "block":
             lab = f"`{s['label']}: " if s["label"] else ""
-            out += f"{pad}{lab}{{\n{src_stmts(s['body'], ind + 1)}{pad}}};\n"
+            out += f"{pad}{lab}{{\n{src_stmts(s['body'], ind + 1, ret_nil)}{pad}}};\n"
         elif k == "while":
             lab = f"`{s['label']}: " if s["label"] else ""
-            out += f"{pad}{s['var']} : i32 = 0;\n{pad}{lab}while {s['var']} < {s['n']} {{\n{pad}    {s['var']} += 1;\n{src_stmts(s['body'], ind + 1)}{pad}}};\n"
+            out += f"{pad}{s['var']} : i32 = 0;\n{pad}{lab}while {s['var']} < {s['n']} {{\n{pad}    {s['var']} += 1;\n{src_stmts(s['body'], ind + 1, ret_nil)}{pad}}};\n"
         elif k == "loop":
             lab = f"`{s['label']}: " if s["label"] else ""
-            out += f"{pad}{s['var']} : i32 = 0;\n{pad}{lab}loop {{\n{pad}    {s['var']} += 1;\n{pad}    if {s['var']} > {s['n']} {{ break; }};\n{src_stmts(s['body'], ind + 1)}{pad}}};\n"
+            out += f"{pad}{s['var']} : i32 = 0;\n{pad}{lab}loop {{\n{pad}    {s['var']} += 1;\n{pad}    if {s['var']} > {s['n']} {{ break; }};\n{src_stmts(s['body'], ind + 1, ret_nil)}{pad}}};\n"
         elif k == "if":
             c = s["cond"]
             cond = ("flag" if c[1] else "!flag") if c[0] == "flag" else f"{c[1]} == {c[2]}"
-            out += f"{pad}if {cond} {{\n{src_stmts(s['body'], ind + 1)}{pad}}};\n"
+            out += f"{pad}if {cond} {{\n{src_stmts(s['body'], ind + 1, ret_nil)}{pad}}};\n"
         elif k == "return":
-            out += f"{pad}return {s['v']};\n"
+            out += f"{pad}return nil;\n" if ret_nil else f"{pad}return {s['v']};\n"
         elif k == "try":
-            out += f"{pad}{{ t : i32 = {'none' if s['nil'] else 'some'}().try; }};\n"
+            if ret_nil:
+                out += f"{pad}{'none' if s['nil'] else 'some'}().try;\n"
+            else:
+                out += f"{pad}{{ t : i32 = {'none' if s['nil'] else 'some'}().try; }};\n"
         elif k == "break":
             out += f"{pad}break{' `' + s['label'] if s['label'] else ''};\n"
         elif k == "continue":
@@ -161,6 +215,11 @@ def src_stmts(stmts, ind):
 
 
 def program_src(case):
+    if case.get("ret") == "nil":
+        # a function whose result type is `nil`: `.try` on a ?void propagates by leaving the function
+        body = src_stmts(case["body"], 1, ret_nil=True)
+        return (PRELUDE_NIL + "f :: (flag: bool) -> nil {\n" + body + "    nil\n}\n"
+                "main :: () {\n    f(true);\n    putchar(10);\n    f(false);\n    putchar(10);\n}\n")
     if case.get("ret") == "erru":
         return (PRELUDE_ERRU + "f :: (flag: bool) -> Err!i32 {\n" + src_stmts(case["body"], 1) + "    42\n}\n"
                 "show :: (r: Err!i32) {\n    switch v in r {\n        i32 => { putchar(48 + v % 10); },\n        Err => { putchar(45); },\n    };\n}\n"
@@ -269,7 +328,8 @@ def expected_tokens(case):
             else:
                 raise AssertionError(f"jump escaped: {j.kind} {j.label}")
         toks += o.tokens
-        toks.append(("-" if result is None else str(result % 10), True))
+        if case.get("ret") != "nil":
+            toks.append(("-" if result is None else str(result % 10), True))
         toks.append(("\n", True))
         nontrivial = nontrivial or o.nontrivial
     return toks, nontrivial
@@ -339,7 +399,8 @@ def replay_payload(payload, scratch):
     return None
 
 
-RULE = ("one function with <= 4 nested blocks / labeled blocks / while / loop, <= 3 defers per block at arbitrary positions, and break (labeled or not), "
+RULE = ("a deterministic sweep of small skeletons (loop / labeled block / plain body with 0-2 defers, 1-2 nested blocks with 1-2 defers, one jump of every kind, unconditional or on "
+        "the flag, result type ?i32 / Err!i32 / nil) and generated functions: one function with <= 4 nested blocks / labeled blocks / while / loop, <= 3 defers per block at arbitrary positions, and break (labeled or not), "
         "continue, return and `.try` on nil / on an error (the function returns ?i32 or Err!i32) at arbitrary positions (unconditional, on a flag, or on a loop counter value); the function is run with flag = true and false. "
         "Non-trivial = at least one jump leaves a block holding a reached, pending defer; distinct by program text.")
 
@@ -354,7 +415,8 @@ def run(ctx):
             ctx.violations[k] = ("replayed case still fails", payload)
         shutil.rmtree(scratch, ignore_errors=True)
         return ctx.finish(RULE, False, [])
-    total = 16000 if ctx.thorough else 1920
+    infra0 = core.run_batches(ctx, "pyv.c03", sweep_cases())
+    total = 16000 if ctx.thorough else 1280
     infra = core.hypothesis_search(ctx, "pyv.c03", total)
     scratch = core.make_scratch("C03", "kf")
     rc = ctx.finish(RULE, False, [
@@ -362,4 +424,4 @@ def run(ctx):
         "statements after an unconditional jump are dead code; they are still generated because the compiler must accept them",
     ], replayer=lambda p: replay_payload(p, scratch), min_nontrivial=50 if not ctx.collect_all() else 0)
     shutil.rmtree(scratch, ignore_errors=True)
-    return 2 if infra and rc == 0 else rc
+    return 2 if (infra or infra0) and rc == 0 else rc
